@@ -208,7 +208,7 @@ func c19ProcWalker(t *rapid.T) {
 	top := &oracle.WNode{Name: ".", Kind: oracle.WDir}
 	dirs := []c19Ent{{"", top}}
 	names := []string{"a", "b", ".h", "d e", "src", ".git", "node_modules", "x.txt", ".env"}
-	n := rapid.IntRange(1, 12).Draw(t, "entries")
+	n := rapid.IntRange(1, 16).Draw(t, "entries")
 	var all []c19Ent
 	for i := 0; i < n; i++ {
 		parent := dirs[rapid.IntRange(0, len(dirs)-1).Draw(t, "parent")]
@@ -224,7 +224,7 @@ func c19ProcWalker(t *rapid.T) {
 		}
 		p := filepath.Join(parent.path, name)
 		node := &oracle.WNode{Name: name, Parent: parent.node}
-		switch rapid.IntRange(0, 5).Draw(t, "kind") {
+		switch rapid.IntRange(0, 7).Draw(t, "kind") {
 		case 0, 1, 2:
 			node.Kind = oracle.WFile
 			os.WriteFile(filepath.Join(root, p), []byte("x"), 0o644)
@@ -232,11 +232,14 @@ func c19ProcWalker(t *rapid.T) {
 			node.Kind = oracle.WDir
 			os.Mkdir(filepath.Join(root, p), 0o755)
 			dirs = append(dirs, c19Ent{p, node})
-		case 5:
+		case 5, 6, 7:
 			if len(all) == 0 {
 				continue
 			}
 			target := all[rapid.IntRange(0, len(all)-1).Draw(t, "target")]
+			if len(dirs) > 1 && rapid.Bool().Draw(t, "linkToDir") {
+				target = dirs[rapid.IntRange(1, len(dirs)-1).Draw(t, "targetDir")]
+			}
 			if target.node.Kind == oracle.WLink {
 				continue
 			}
@@ -250,6 +253,12 @@ func c19ProcWalker(t *rapid.T) {
 	o := oracle.WalkOpts{File: rapid.Bool().Draw(t, "file"), Dir: rapid.Bool().Draw(t, "dir"), Follow: rapid.Bool().Draw(t, "follow"), Hidden: rapid.Bool().Draw(t, "hidden")}
 	if !o.File && !o.Dir {
 		o.File = true
+	}
+	// a root spelled "link/.." is only combined with a walk that does not follow links: which
+	// links are followed below a root whose spelling itself goes through a link is not documented
+	rootForm := rapid.IntRange(0, 4).Draw(t, "rootForm")
+	if rootForm >= 2 {
+		o.Follow = false
 	}
 	var w []string
 	for _, f := range []struct {
@@ -276,6 +285,36 @@ func c19ProcWalker(t *rapid.T) {
 		args = append(args, "--walker-skip", "") // an empty list: nothing is pruned
 	default:
 		args = append(args, "--walker-skip="+strings.Join(skips, ","))
+	}
+	// the directory to walk: the current one, or one named by --walker-root in one of its spellings
+	walkNode, walkPath := top, "."
+	switch rootForm {
+	case 1:
+		if len(dirs) > 1 {
+			d := dirs[rapid.IntRange(1, len(dirs)-1).Draw(t, "rootDir")]
+			// (whether a root that is itself hidden or named like a skipped directory is walked is not documented)
+			plain := !strings.HasPrefix(d.node.Name, ".")
+			for _, sk := range skips {
+				if sk == d.node.Name || strings.HasSuffix(d.path, sk) {
+					plain = false
+				}
+			}
+			if plain {
+				walkNode, walkPath = d.node, rapid.SampledFrom([]string{"%s", "%s/", "./%s"}).Draw(t, "rootSpelling")
+				walkPath = fmt.Sprintf(walkPath, d.path)
+			}
+		}
+	case 2, 3:
+		// through a symbolic link and up again: the parent of the link's target, not of the link
+		for _, e := range all {
+			if e.node.Kind == oracle.WLink && e.node.Target.Kind == oracle.WDir && e.node.Target.Parent != nil {
+				walkNode, walkPath = e.node.Target.Parent, e.path+"/.."
+				break
+			}
+		}
+	}
+	if walkPath != "." {
+		args = append(args, "--walker-root", walkPath)
 	}
 	s := StartSession(t, SessionCfg{Args: args, NoStdin: true, Cwd: root, Width: 80, Height: 30, Env: []string{"FZF_DEFAULT_COMMAND="}})
 	defer s.Close()
@@ -306,15 +345,21 @@ func c19ProcWalker(t *rapid.T) {
 		got = append(got, m.Text)
 	}
 	sort.Strings(got)
-	want := oracle.Walk(top, ".", o, skips)
-	desc := fmt.Sprintf("walker=%s skip=%v tree=%s", strings.Join(w, ","), skips, describeTree(all))
+	want := oracle.Walk(walkNode, walkPath, o, skips)
+	desc := fmt.Sprintf("walker=%s skip=%v root=%q tree=%s", strings.Join(w, ","), skips, walkPath, describeTree(all))
 	hasLink := false
 	for _, e := range all {
 		if e.node.Kind == oracle.WLink {
 			hasLink = true
 		}
 	}
-	vstat.Case("C19/proc-walker", desc, len(all) >= 4 && (hasLink || !o.Hidden), "walker="+strings.Join(w, ","))
+	rootLabel := "cwd"
+	if strings.HasSuffix(walkPath, "/..") {
+		rootLabel = "through-link-and-up"
+	} else if walkPath != "." {
+		rootLabel = "named-directory"
+	}
+	vstat.Case("C19/proc-walker", desc, len(all) >= 4 && (hasLink || !o.Hidden), "walker="+strings.Join(w, ","), "root="+rootLabel)
 	if msg := oracle.CheckWalk(got, want); msg != "" {
 		t.Fatalf("%s\nlisted: %q\nmust: %q\nmay: %q\n%s", msg, got, want.Must, want.May, desc)
 	}
